@@ -488,6 +488,9 @@ def run(ctx):
                                     viol("native-layout|value|%s|magnitude-%g" % (base, mag), "frame %d of the .%s file holds coordinates %s for %s" % (f, ext, fr[4].ravel()[:3], xyz[f].ravel()[:3]), rp)
                                     break
                 # ---- the bytes of the .trr file read by the Lean model (Model/Xdr.lean, theorem c01_trr_roundtrip): exact comparison
+                if base == "xtc" and os.path.getsize(path) <= 40000:
+                    reqs.append("xtc " + open(path, "rb").read().hex())
+                    meta.append(("xtcbytes", k, ext, (np.asarray(time, dtype=np.float32), None if cellmode == "none" else t.unitcell_vectors.astype(np.float32), xyz.astype(np.float32), na), rp))
                 if base == "trr" and os.path.getsize(path) <= 40000:
                     reqs.append("trr " + open(path, "rb").read().hex())
                     meta.append(("trrbytes", k, ext, (np.asarray(time, dtype=np.float32), None if cellmode == "none" else t.unitcell_vectors.astype(np.float32), xyz.astype(np.float32), na), rp))
@@ -584,6 +587,32 @@ def run(ctx):
                     pc = [] if nat_[f][1] is None else [Fraction(float(v)) for v in nat_[f][1]]
                     if mx != px or fq(cs_) != pc:
                         viol("native-layout|dcd|readers-disagree", "frame %d of the .dcd file: the byte-level model and the independent Python reader extract different numbers" % f, rp)
+                        break
+                continue
+            if what == "xtcbytes":
+                tm_, bx_, xy_, na_ = data
+                ctx.count(".xtc files read byte by byte by the Lean model")
+                if not m.startswith("ok"):
+                    viol("native-layout|xtc|model-reader", "the byte-level model cannot follow the .xtc file mdtraj wrote (%s)" % m[:60], rp)
+                    continue
+                frs = m[3:].split(";")
+                if len(frs) != len(tm_):
+                    viol("native-layout|count|xtc", "the byte-level model finds %d frames in the .xtc file, expected %d" % (len(frs), len(tm_)), rp)
+                    continue
+                for f, fr in enumerate(frs):
+                    head, rest_ = fr.split(" B ")
+                    bxs, xs = (rest_.split(" X ") + [""])[:2]
+                    hn, hstep, ht = head.split()
+                    fq = lambda a: [Fraction(v) for v in a.split()]
+                    exact = lambda arr: [Fraction(float(v)) for v in np.asarray(arr, dtype=np.float32).ravel()]
+                    if int(hn) != na_ or Fraction(ht) != Fraction(float(tm_[f])):
+                        viol("native-time|xtc|bytes", "frame %d of the .xtc file: %s atoms, time %s; the trajectory has %d atoms, time %r" % (f, hn, ht, na_, float(tm_[f])), rp)
+                        break
+                    if fq(bxs) != (exact(bx_[f]) if bx_ is not None else [Fraction(0)] * 9):
+                        viol("native-cell-vectors|xtc", "frame %d of the .xtc file holds the box %s, the trajectory's vectors are %s" % (f, [float(v) for v in fq(bxs)], None if bx_ is None else bx_[f].ravel().tolist()), rp)
+                        break
+                    if na_ <= 9 and fq(xs) != exact(xy_[f]):
+                        viol("native-layout|value|xtc|bytes", "frame %d of the .xtc file (%d atoms, stored as plain floats) does not hold the float32 coordinates of the trajectory" % (f, na_), rp)
                         break
                 continue
             if what == "trrbytes":
